@@ -503,10 +503,15 @@ class World:
         kw = self.codec.dec(op.get('kwargs', {}))
         kind = op['kind']
         if kind == 'origin':
+            # simulated clock and RNG values belong to the op (derived from its handle when not given), so that removing or
+            # reordering other ops never changes them
+            import zlib
+            hh = zlib.crc32(str(op.get('h')).encode())
             if op.get('now'):
                 FakeDatetime._now = _dt.datetime.fromisoformat(op['now'])
-            if op.get('rng_seed') is not None:
-                np.random.seed(op['rng_seed'])
+            else:
+                FakeDatetime._now = _dt.datetime(2021, 3, 4, 5, 6, 7, 89000) + _dt.timedelta(seconds=hh % 10 ** 7, microseconds=hh % 999983)
+            np.random.seed(op['rng_seed'] if op.get('rng_seed') is not None else hh)
             reads0 = FakeDatetime._reads
         meth = getattr(lf, 'add_' + kind)
         if 'name' in op:
